@@ -219,7 +219,7 @@ pub fn run(prop: &'static str, tier: Tier, seed: u64, findings: &Findings) -> i3
     let check = C04 { prop, cfg: wc, datas: tier.pick(3, 6) };
     let mut report = engine::Report::default();
     report.merge(super::run_regress(&check, &cfg, findings));
-    let cases = tier.pick(4000, 300_000);
+    let cases = tier.pick(20_000, 300_000);
     report.merge(engine::run_generated(&check, &cfg, cases, 8, 16, findings, 0));
     let rule = if prop == "C05" {
         "cases = generated multi-file groups biased to name collisions (scope variables named like data fields, nested wx:for re-using / renaming item and index, wxs modules named like fields), rendered for several data objects on the real wrapper and compared with the reference renderer, which resolves names on the model's own scope stack. non-trivial = at least one identifier with >= 2 candidate bindings; distinct by printed source.".to_string()
